@@ -1,5 +1,9 @@
 """C16 — simplification keeps the end points, only drops fixes, honours its tolerance.
 
+Under contract: distance_to_segment, douglas_peucker (recursive contract incl. the tolerance clause), and the whole
+Visvalingam chain: triangle_area, aire_visval, Operator.ARGMIN (Argmin.execute, Track.operate), addAnalyticalFeature
+bound to aire_visval (real try / except IndexError), removeObs, visvalingam.
+
 distance_to_segment: never fails (degenerate chord included), returns the distance from P to a point of the segment
 (the per-coordinate clamp of the foot equals A + clamp(t)(B - A)), so it is an upper bound of nothing smaller than
 the true distance to the segment -- which is what the tolerance clause needs -- and it is 0 at the chord's ends."""
@@ -295,4 +299,12 @@ USES_LIB = True
 FUNCTIONS = [G + "distance_to_segment", "tracklib.algo.simplification:douglas_peucker",
              G + "triangle_area", G + "aire_visval", "tracklib.core.operators:Argmin.execute",
              "tracklib.core.track:Track.operate@argmin", "tracklib.core.track:Track.addAnalyticalFeature@aire_visval", "tracklib.algo.simplification:visvalingam", "tracklib.core.track:Track.removeObs"]
-ASSUMPTIONS = ["math.sqrt: r >= 0 and r*r == x (trusted axiom)"]
+ASSUMPTIONS = ["math.sqrt: r >= 0 and r*r == x (trusted axiom)",
+               "distance_to_segment and triangle_area are treated as mathematical functions (dseg, triarea) of their float arguments: justified "
+               "by the syntactic purity obligation `pure-function` (no state read, only math.* / min / max / abs called) and by math.sqrt being a function",
+               "douglas_peucker: the fixes of the input track are pairwise distinct objects, coordinates are numbers, eps > 0; "
+               "'within the tolerance' is dseg(fix, segment) <= eps with dseg the value distance_to_segment computes in real arithmetic",
+               "visvalingam: Track.copy (copy.deepcopy) is a TRUSTED contract: a new track of new observations with the same coordinates, timestamps, "
+               "feature lists and name table; no triangle of three input fixes has an area of 1e300 or more (Operator.ARGMIN ignores values >= 1e300, "
+               "encoded as the symbolic bound BIG); at least two fixes; the result's fixes are the COPIES, related to the input fixes by position and timestamp",
+               "list.sort on a one-element list inside removeObsList is the trusted sort model"]
